@@ -11,7 +11,7 @@ EXTENDS FeatGraph, TLC
 CONSTANTS MaxNodes,     \* operator nodes per architecture
           Widths,       \* channel widths of defining layers
           Dim, C0, Sp0, \* 1|2, input channels, input spatial size
-          AllowExcl, AllowCat3, AllowReuse, AllowFindings   \* BOOLEAN switches of the grammar / of the Supported() guard
+          AllowExcl, AllowCat3, AllowReuse, Extras, AllowFindings   \* BOOLEAN switches (Extras: squeeze variants, negative concat axes) of the grammar / of the Supported() guard
 
 VARIABLES arch, phase, f
 
@@ -26,17 +26,18 @@ Init == /\ arch = [dim |-> Dim, c0 |-> C0, sp |-> Sp0, nodes |-> <<>>]
         /\ f = <<>>
 
 T(a) == 0..N(a)          \* tensors
-Compatible(a, p, q) == Ch(a, p) = Ch(a, q) /\ Sp(a, p) = Sp(a, q) /\ IsFlat(a, p) = IsFlat(a, q)
+SameSpatial(a, p, q) == Sp(a, p) = Sp(a, q) /\ SpW(a, p) = SpW(a, q)
+Compatible(a, p, q) == Ch(a, p) = Ch(a, q) /\ SameSpatial(a, p, q) /\ IsFlat(a, p) = IsFlat(a, q)
 
 NF(a) == {t \in T(a) : ~IsFlat(a, t)}
 Pairs(a)   == {pq \in T(a) \X T(a) : pq[1] # pq[2]}
 AddPairs(a) == {pq \in Pairs(a) : Compatible(a, pq[1], pq[2])}
-CatPairs(a) == {pq \in Pairs(a) : Sp(a, pq[1]) = Sp(a, pq[2]) /\ IsFlat(a, pq[1]) = IsFlat(a, pq[2])}
+CatPairs(a) == {pq \in Pairs(a) : SameSpatial(a, pq[1], pq[2]) /\ IsFlat(a, pq[1]) = IsFlat(a, pq[2])}
 CatTriples(a) == {t \in T(a) \X T(a) \X T(a) :
                     /\ t[1] < t[2] /\ t[3] # t[1]
-                    /\ Sp(a, t[1]) = Sp(a, t[2]) /\ Sp(a, t[1]) = Sp(a, t[3])
+                    /\ SameSpatial(a, t[1], t[2]) /\ SameSpatial(a, t[1], t[3])
                     /\ IsFlat(a, t[1]) = IsFlat(a, t[2]) /\ IsFlat(a, t[1]) = IsFlat(a, t[3])}
-CattPairs(a) == {pq \in Pairs(a) : pq[1] < pq[2] /\ Ch(a, pq[1]) = Ch(a, pq[2])
+CattPairs(a) == {pq \in Pairs(a) : pq[1] < pq[2] /\ Ch(a, pq[1]) = Ch(a, pq[2]) /\ SpW(a, pq[1]) = SpW(a, pq[2])
                                       /\ ~IsFlat(a, pq[1]) /\ ~IsFlat(a, pq[2])}
 Excl == IF AllowExcl THEN BOOLEAN ELSE {FALSE}
 
@@ -53,13 +54,13 @@ Candidates(a) ==
     \cup {Node("conv", <<p>>, 0, TRUE, FALSE) : p \in NF(a)}
     \cup {Node("lin", <<p>>, w, FALSE, e) : p \in T(a) \ NF(a), w \in Widths, e \in Excl}
     \cup {Node("relu", <<p>>, 0, FALSE, FALSE) : p \in T(a) \ {0}}
-    \cup {Node("pool", <<p>>, 0, FALSE, FALSE) : p \in {t \in NF(a) \ {0} : Sp(a, t) >= 2}}
+    \cup {Node("pool", <<p>>, 0, FALSE, FALSE) : p \in {t \in NF(a) \ {0} : Sp(a, t) >= 2 /\ (Dim = 1 \/ SpW(a, t) >= 2)}}
     \cup {Node("flat", <<p>>, 0, FALSE, FALSE) : p \in NF(a)}
-    \cup (IF Dim = 1 THEN {[Node("gsq", <<p>>, 0, FALSE, FALSE) EXCEPT !.d = dd] : p \in NF(a) \ {0}, dd \in {2, -1}} ELSE {})
+    \cup (IF Dim = 1 /\ Extras THEN {[Node("gsq", <<p>>, 0, FALSE, FALSE) EXCEPT !.d = dd] : p \in NF(a) \ {0}, dd \in {2, -1}} ELSE {})
     \cup {Node("add", <<pq[1], pq[2]>>, 0, FALSE, FALSE) : pq \in AddPairs(a)}
     \cup {Node("cat", <<pq[1], pq[2]>>, 0, FALSE, FALSE) : pq \in CatPairs(a)}
     \cup (IF AllowCat3 THEN {Node("cat", <<t[1], t[2], t[3]>>, 0, FALSE, FALSE) : t \in CatTriples(a)} ELSE {})
-    \cup (IF Dim = 1 THEN {Node("catt", <<pq[1], pq[2]>>, 0, FALSE, FALSE) : pq \in CattPairs(a)} ELSE {})
+    \cup {[Node("catt", <<pq[1], pq[2]>>, 0, FALSE, FALSE) EXCEPT !.d = dd] : pq \in CattPairs(a), dd \in (IF Extras THEN {1, -1} ELSE {1})}
 
 Grow == /\ phase = "grow" /\ N(arch) < MaxNodes
         /\ \E nd \in Candidates(arch) : arch' = [arch EXCEPT !.nodes = Append(@, nd)]
